@@ -10,6 +10,9 @@ Library:
                                                            'desc_dump', 'problems' (list of strings)
     run_model(fd_text, model_exe=None) -> (rc, stdout, stderr)
     diff_lines(real_text, model_text) -> [str]              unified line diff ('-' real, '+' model); [] = agreement
+                                                           (every line of section 2: descriptors MD..SN, lookups
+                                                           ML MK EL EK SL, service tests SS SI SX)
+    line_kinds(diff) -> {kind: count}                       which kinds of lines a diff touches
     compare(case, incdirs=(), model_exe=None, cache_dir=None) -> dict
                                                            keys 'id', 'ok', 'diff', 'problems', 'fd_dump',
                                                            'real', 'model', 'model_s'
@@ -119,6 +122,19 @@ def diff_lines(real_text, model_text):
     return [l for l in difflib.unified_diff(a, b, 'real', 'model', lineterm='', n=1)]
 
 
+def line_kinds(diff):
+    """{'MU': 2, 'EK': 1, ...}: the number of real-side lines of each kind that a diff removes or changes."""
+    kinds = {}
+    for l in diff:
+        if l.startswith('-') and not l.startswith('---'):
+            k = l[1:].split(' ', 1)[0]
+            kinds[k] = kinds.get(k, 0) + 1
+        elif l.startswith('+') and not l.startswith('+++'):
+            k = l[1:].split(' ', 1)[0]
+            kinds.setdefault(k, 0)
+    return kinds
+
+
 def compare(case, incdirs=(), model_exe=None, cache_dir=None):
     r = real_dumps(case, incdirs, cache_dir)
     res = {'id': r['id'], 'ok': False, 'diff': [], 'problems': list(r['problems']), 'fd_dump': r['fd_dump'],
@@ -194,7 +210,7 @@ def main(argv):
         except Exception as e:                      # keep going: one broken case must not hide the others
             return {'id': case_id(c), 'ok': False, 'diff': [], 'problems': ['exception: %r' % (e,)], 'model_s': 0.0}
 
-    bad, n, tmax = 0, 0, 0.0
+    bad, n, tmax, kinds = 0, 0, 0.0, {}
     with concurrent.futures.ThreadPoolExecutor(max_workers=max(1, jobs)) as ex:
         for r in ex.map(one, cases):
             n += 1
@@ -209,8 +225,12 @@ def main(argv):
                     print('!! ' + p)
                 for l in r['diff']:
                     print(l)
+                for k, c in line_kinds(r['diff']).items():
+                    kinds[k] = kinds.get(k, 0) + max(c, 1)
             sys.stdout.flush()
     print('%d cases, %d agree, %d disagree; slowest model run %.3fs' % (n, n - bad, bad, tmax))
+    if kinds:
+        print('differing lines by kind: ' + ' '.join('%s=%d' % kv for kv in sorted(kinds.items())))
     return 1 if bad else 0
 
 
